@@ -451,6 +451,9 @@ def _run_badhint(case):
     return probes, viol
 
 
+# names that the grammar's string hints refer to (see sim/hintjunk.py): string hints are resolved against this module
+from sim.hintjunk import FwdAny, FwdObject, FwdInt, FwdListInt, FwdOptional  # noqa: E402,F401
+
 GRAM_APIS = ['decorate_param', 'decorate_return', 'is_bearable', 'die_if_unbearable', 'typehint_use', 'is_subhint_left',
              'is_subhint_right', 'is_subhint_self', 'decorate_both', 'typehint_cmp']
 
